@@ -184,7 +184,7 @@ pub fn run(prop: &'static str, tier: Tier) -> ! {
 
     // Family A: ASCII mains x lookaheads, 1..2 (thorough: 3 with a smaller menu) patterns
     let mains = ["a", "b", "ab", "(a)+", "[ab]", "(a)*", "abx", "(ab)?a", "."];
-    let las = ["a", "b", "x", "ab", "[ab]", "(b)+", "bx"];
+    let las = ["a", "b", "x", "ab", "[ab]", "(b)+", "bx", "bx?", "(a){1,2}"];
     let l = if tier == Tier::Quick { 4 } else { 5 };
     let fam_a = LaFamily { ps: pats_with_la(&mains, &las), max_pats: 2 };
     let ins_a = inputs(&['a', 'b', 'x'], l);
@@ -197,7 +197,7 @@ pub fn run(prop: &'static str, tier: Tier) -> ! {
     for a in accs {
         merge(&mut total, a);
     }
-    families.push(json!({"family": "A: all ordered modes of 1..2 patterns from 9 mains x {no, positive, negative lookahead from 7 non-nullable patterns} with at least one lookahead", "index_space": n, "inputs": format!("{{a,b,x}}^<={l}"), "start_offsets": "none, every character boundary, |x|+1", "exhaustive": true}));
+    families.push(json!({"family": "A: all ordered modes of 1..2 patterns from 9 mains x {no, positive, negative lookahead from 9 non-nullable patterns incl. optional tails and bounded repetitions} with at least one lookahead", "index_space": n, "inputs": format!("{{a,b,x}}^<={l}"), "start_offsets": "none, every character boundary, |x|+1", "exhaustive": true}));
 
     // Family B: multi-byte characters in front of and inside lookaheads
     let mains_b = ["é", "a", "[aé]+", "aé", "(é)+", "€"];
